@@ -122,6 +122,14 @@ def body(ctx):
     # non-trivial = a data-dependent loop actually iterated (some tick counter > 0); distinct = distinct (function, type, width, tick vector)
     ctx.cov["distinct_nontrivial"] = len({(e["op"], e["t"], e["w"], tuple(e["ticks"])) for e in events if e["k"] == "lp" and any(e["ticks"])})
     ctx.cov["distinct_observations"] = len(events)
+    mt = {}
+    for e in events:
+        if e["k"] == "lp":
+            for i, v in enumerate(e["ticks"]):
+                if v:
+                    key = "%s/%s/loop%d" % (e["op"], e["t"], i)
+                    mt[key] = max(mt.get(key, 0), v)
+    ctx.cov["max_ticks_observed"] = mt          # the analytic constants of Loops.BoundOf are 4, 2, 20, 38, 36/172, 34, 2; the trace bound is 256
     return dict(exhaustive=False,
                 rule="every unary elementary function (+ pow/atan2/hypot/fmod/remainder/fdim, ipow, sincos) for float and double on 22 architectures + scalar overloads, arguments from the "
                      "class lattice (every exponent stride x 6 mantissas x 2 signs), special values, gamma case-analysis neighbourhoods and huge values, broadcast and next to companions of other "
